@@ -310,6 +310,9 @@ func (vc *FuncVC) storeAt(st *State, p PtrVal, v Value) {
 		}
 		u := p.T.Underlying().(*types.Struct)
 		for i := 0; i < u.NumFields(); i++ {
+			if x.F[i] == nil {
+				continue // unmodelled part of an external struct
+			}
 			vc.storeAt(st, vc.fieldPtr(p, i), x.F[i])
 		}
 	case *ZeroArray:
@@ -378,7 +381,16 @@ func (vc *FuncVC) zero(t types.Type) Value {
 	case *types.Struct:
 		sv := &StructVal{T: t}
 		if !vc.isLocalStruct(t) {
-			return sv // opaque external struct (sync.Mutex, protoimpl.MessageState, ...): no modelled fields
+			// external struct (sync.Mutex, bbolt.Options, protoimpl.MessageState, ...): only its scalar fields are
+			// modelled (a nil entry = unmodelled nested value)
+			for i := 0; i < u.NumFields(); i++ {
+				if vc.sortOf(u.Field(i).Type()) != "" {
+					sv.F = append(sv.F, vc.zero(u.Field(i).Type()))
+				} else {
+					sv.F = append(sv.F, nil)
+				}
+			}
+			return sv
 		}
 		for i := 0; i < u.NumFields(); i++ {
 			sv.F = append(sv.F, vc.zero(u.Field(i).Type()))
